@@ -4,7 +4,7 @@
    to exactly the marshalled bytes that are written, or when the marshal options change. *)
 From Coq Require Import String Ascii List Bool NArith.
 Import ListNotations.
-Require Import Verif.Codec.JsonClean Verif.Codec.JsonCleanProps Verif.Gen.JsonRegex.
+Require Import Verif.Codec.JsonClean Verif.Codec.JsonCleanProps Verif.Codec.FileWrite Verif.Gen.JsonRegex.
 Local Open Scope string_scope.
 Local Open Scope list_scope.
 
@@ -40,3 +40,28 @@ Proof.
   cbn [app] in *. cbn [clean_go]. rewrite T. change (after "{"%char) with Mid. f_equal.
   rewrite <- (app_nil_r rest) at 1. rewrite clean_mid_chunk by exact H. rewrite app_nil_r. reflexivity.
 Qed.
+
+(* every file writer opens its path so that earlier content is replaced *)
+Lemma file_writers_truncate :
+  file_writers = [("GeneratePBBinaryMessageFile", OpenCreate); ("JSONPBWithOpt", OpenCreate); ("TextPBWithOpt", OpenCreate)].
+Proof. reflexivity. Qed.
+
+Lemma read_write_truncating m fs p b : truncates m = true -> exists fs', write_file m fs p b = Some fs' /\ read fs' p = Some b.
+Proof.
+  intros H. unfold write_file. destruct m; try discriminate; cbn [written]; eexists; (split; [reflexivity|]); cbn; rewrite String.eqb_refl; reflexivity.
+Qed.
+
+(* whatever the path held before (longer, shorter, unrelated), after any writer of the source the file holds
+   exactly the encoding *)
+Theorem written_file_is_the_encoding w m fs p b :
+  In (w, m) file_writers -> exists fs', write_file m fs p b = Some fs' /\ read fs' p = Some b.
+Proof.
+  intros Hin. apply read_write_truncating. rewrite file_writers_truncate in Hin. cbn in Hin.
+  destruct Hin as [[= _ <-]|[[= _ <-]|[[= _ <-]|[]]]]; reflexivity.
+Qed.
+
+(* without truncation a longer earlier content leaves a tail (why the obligation matters) *)
+Example stale_tail :
+  written OpenNoTrunc (Some (list_ascii_of_string "{""a"": 1, ""b"": 2}")) (list_ascii_of_string "{}") =
+  Some (list_ascii_of_string "{}a"": 1, ""b"": 2}").
+Proof. reflexivity. Qed.
